@@ -26,7 +26,7 @@ ASSUMPTIONS = ["equality with the fresh network: 1e-9 relative (l2) for direct s
 FLOORS = {"quick": {"cases_held": 350, "history_ops": 4000, "mon_unseeded_sensitivity": 300, "mon_reset": 5000},
           "thorough": {"cases_held": 12000, "history_ops": 150000, "mon_unseeded_sensitivity": 12000, "mon_reset": 180000}}
 KINDS = ["compliance", "compliance3d", "cg-ilu", "cg-mg", "dynamic", "eig-sparse", "eig-dense", "soe", "sc-linsolve", "general-const",
-         "general-nonsym", "aggregation", "filterconv-overhang", "block-loads", "dense-definiteness", "cg-block"]
+         "general-nonsym", "aggregation", "filterconv-overhang", "block-loads", "dense-definiteness", "cg-block", "sparse-decouple", "nested-topdown"]
 TIMEOUT_CASE = 300
 
 
@@ -211,6 +211,46 @@ def build(kind, par):
             A = (A + A.T) / 2
             return [np.asfortranarray(A) if rng.random() < 0.5 else A]
         return net, [sA], [sl, sV], 1e-7, genA
+    if kind == "nested-topdown":
+        # a sub-network that is appended to the outer network first and filled afterwards
+        d = pym.DomainDefinition(par["nx"], par["ny"])
+        bc = (d.nodes[0, ...].flatten()[:, None] * 2 + np.arange(2)[None]).flatten()
+        ndof = d.nnodes * 2
+        sx = S("x", np.ones(d.nel) * 0.5)
+        f = np.zeros(ndof)
+        f[-1] = 1.0
+        sfv = S("f", f)
+        sub = pym.Network()
+        net.append(sub)
+        sK = sub.append(pym.AssembleStiffness(sx, domain=d, bc=bc))
+        su = sub.append(pym.LinSolve([sK, sfv]))
+        sc = sub.append(pym.EinSum([su, sfv], expression="i,i->"))
+        sv = net.append(pym.EinSum([sx], expression="i->"))
+        return net, [sx], [sc, su, sv], tol, lambda rng: [rng.uniform(0.2, 1.0, d.nel)]
+    if kind == "sparse-decouple":
+        # sparse system with a fixed sparsity pattern (explicit zeros, as an assembly routine produces) in which dofs are decoupled
+        # at some evaluations (void elements, springs of zero stiffness) and coupled at others
+        n = par["n"]
+        pat = sps.coo_matrix(np.ones((n, n)))
+
+        def store(A):
+            return sps.csc_matrix((A[pat.row, pat.col], (pat.row, pat.col)), shape=(n, n))
+        sA, sb = S("A", store(par["A0"])), S("b", np.ones(n))
+        su = net.append(pym.LinSolve([sA, sb]))
+        sc = net.append(pym.EinSum([su, sb], expression="i,i->"))
+
+        def genS(rng):
+            Q = np.linalg.qr(rng.standard_normal((n, n)))[0]
+            A = (Q * rng.uniform(1.0, 4.0, n)) @ Q.T
+            A = (A + A.T) / 2
+            if rng.random() < 0.6:
+                idx = rng.choice(n, size=int(rng.integers(1, n - 1)), replace=False)
+                dg = np.diag(A)[idx].copy()
+                A[idx, :] = 0
+                A[:, idx] = 0
+                A[idx, idx] = dg
+            return [store(A), rng.standard_normal(n)]
+        return net, [sA, sb], [sc, su], 1e-8, genS
     if kind == "dense-definiteness":
         # dense symmetric system with positive diagonal whose definiteness changes along the history (e.g. K - w^2 M swept
         # through a resonance): the Cholesky solver chosen at the first call has to fall back to LDL and come back
@@ -242,7 +282,10 @@ def build(kind, par):
         sy = net.append(pym.MathGeneral(sx, expression="inp0^2 + 0.1"))
         sp = net.append(pym.PNorm(sy, p=4.0, active_set=pym.AggActiveSet(lower_rel=0.1, upper_amt=0.8)))
         sk = net.append(pym.KSFunction(sy, rho=-3.0))
-        return net, [sx], [sp, sk], tol, lambda rng: [np.sort(rng.uniform(0.5, 2.0, par["n"])) + np.arange(par["n"]) * 0.05]
+        # undamped scaling has no memory (only damped scaling is a documented exception): the factor belongs to the latest response
+        ss = net.append(pym.PNorm(sy, p=6.0, scaling=pym.AggScaling("max")))
+        sm = net.append(pym.SoftMinMax(sy, alpha=-4.0, scaling=pym.AggScaling("min", damping=0.0)))
+        return net, [sx], [sp, sk, ss, sm], tol, lambda rng: [np.sort(rng.uniform(0.5, 2.0, par["n"])) + np.arange(par["n"]) * 0.05]
     raise ValueError(kind)
 
 
@@ -258,7 +301,7 @@ def params(kind, rng):
     if kind == "general-nonsym":
         em = rng.standard_normal((8, 8)) * 0.5
         p["em"] = em + 8 * np.eye(8)
-    if kind == "dense-definiteness":
+    if kind in ("dense-definiteness", "sparse-decouple"):
         n = p["n"]
         Q = np.linalg.qr(rng.standard_normal((n, n)))[0]
         A = (Q * rng.uniform(1.0, 4.0, n)) @ Q.T
@@ -269,6 +312,16 @@ def params(kind, rng):
         A = (Q * np.arange(1, n + 1)) @ Q.T
         p["A0"] = (A + A.T) / 2
     return p
+
+
+def _all_sigs(net):
+    """every signal of every module, descending into nested networks (whose own signal lists may not list the inner signals)"""
+    out = []
+    for m in net.mods:
+        if hasattr(m, "mods"):
+            out += _all_sigs(m)
+        out += list(m.sig_in) + list(m.sig_out)
+    return out
 
 
 def _setin(ins, xs):
@@ -366,14 +419,14 @@ def run_case(case, ctx):
                     if not responded:
                         net.response()
                         responded = True
-                    before = [digest(s.sensitivity) for m in net.mods for s in list(m.sig_in) + list(m.sig_out)]
+                    before = [digest(s.sensitivity) for s in _all_sigs(net)]
                     net.sensitivity()
-                    after = [digest(s.sensitivity) for m in net.mods for s in list(m.sig_in) + list(m.sig_out)]
+                    after = [digest(s.sensitivity) for s in _all_sigs(net)]
                     require(before == after and all(b is None for b in after), "sensitivity-without-seed-changes-something", kind=kind)
             # the comparison cycle
             xs = gen(rng)
             net.reset()
-            left = [s for m in net.mods for s in list(m.sig_in) + list(m.sig_out) if s.sensitivity is not None and np.any(todense(s.sensitivity))]
+            left = [s for s in _all_sigs(net) if s.sensitivity is not None and np.any(todense(s.sensitivity))]
             require(not left, "reset-leaves-a-sensitivity", kind=kind, n=len(left))
             _setin(ins, xs)
             net.response()
